@@ -1,4 +1,5 @@
 import CGV.Props.C02
+import CGV.Props.C02Step
 #print axioms CGV.C02.C02_copy_atoms
 #print axioms CGV.C02.C02_copy_attrs
 #print axioms CGV.C02.C02_copy_edges
@@ -6,3 +7,8 @@ import CGV.Props.C02
 #print axioms CGV.C02.C02_members_iff
 #print axioms CGV.C02.C02_cover
 #print axioms CGV.C02.C02_sort_keeps
+#print axioms CGV.C02.squash_fragok
+#print axioms CGV.C02.rebuildH_fragok
+#print axioms CGV.C02.phaseB_cover
+#print axioms CGV.C02.C02_step_cover
+#print axioms CGV.C10.squash_closed
